@@ -39,6 +39,14 @@ func queryLit(label string, q func() b6.Query) Lit {
 	return Lit{Kind: KQuery, Label: label, Expr: func() b6.Expression { return b6.NewQueryExpression(q()) }}
 }
 
+func strProbe(s string) func() b6.Expression {
+	return func() b6.Expression { return b6.NewStringExpression(s) }
+}
+
+func keyProbe(k string) func() b6.Expression {
+	return func() b6.Expression { return b6.NewQueryExpression(b6.Keyed{Key: k}) }
+}
+
 func QueryLib() *Lib {
 	real := functions.Functions()
 	q1 := func() b6.Query { return b6.Keyed{Key: "#j"} }
@@ -61,8 +69,8 @@ func QueryLib() *Lib {
 		ParamListsNested: [][]string{{"b"}},
 		MaxXArgs:         2,
 		Probes: [][]func() b6.Expression{
-			{func() b6.Expression { return b6.NewStringExpression("#p") }, func() b6.Expression { return b6.NewStringExpression("q") }, func() b6.Expression { return b6.NewStringExpression("r") }},
-			{func() b6.Expression { return b6.NewQueryExpression(b6.Keyed{Key: "#x"}) }, func() b6.Expression { return b6.NewQueryExpression(b6.Keyed{Key: "#y"}) }, func() b6.Expression { return b6.NewQueryExpression(b6.Keyed{Key: "#z"}) }},
+			{strProbe("#p"), strProbe("q"), strProbe("r"), strProbe("#s"), strProbe("t"), strProbe("u")},
+			{keyProbe("#x"), keyProbe("#y"), keyProbe("#z"), keyProbe("#u"), keyProbe("#v"), keyProbe("#w")},
 		},
 	}).finish()
 }
